@@ -177,7 +177,7 @@ def _c08_vm_sample(d, tier, coq, build, want=200):
         for l in f:
             if len(l) <= 1500:
                 i, _, c = l.rstrip("\n").partition(" ")
-                if i in outs:
+                if i in outs and c.startswith("H "):
                     cands.append((i, c))
     step = max(1, len(cands) // want)
     goals = []
